@@ -49,7 +49,8 @@ VARIABLES http,       \* configuration
           tokens,     \* challenge responses currently served by the Manager (set of types)
           cleanups,   \* deferred cleanups (set of types)
           tried,      \* challenge types for which an Accept was sent
-          badAccept,  \* history: some Accept broke F2 / F6 / "each type once"
+          badAccept,  \* history: some Accept was sent without its response being served / for a type not offered (F2)
+          badTarget,  \* history: some Accept addressed a non-pending authorization or re-used a challenge type (F1, F6)
           refused,    \* authorizations <<k, j>> whose deactivation the CA refused
           finalized,  \* orders for which finalize was requested
           readySeen,  \* orders the CA reported ready to the client
@@ -58,7 +59,7 @@ VARIABLES http,       \* configuration
           bgDone,     \* deferred goroutines have run
           ev
 
-hvars == <<http, pc, k, j, nextTyp, ordSt, azSt, offer, tokens, cleanups, tried, badAccept, refused, finalized, readySeen, woFails, result, bgDone>>
+hvars == <<http, pc, k, j, nextTyp, ordSt, azSt, offer, tokens, cleanups, tried, badAccept, badTarget, refused, finalized, readySeen, woFails, result, bgDone>>
 vars == <<hvars, ev>>
 
 E(t, a, b, n, m) == [t |-> t, a |-> a, b |-> b, n |-> n, m |-> m]
@@ -66,7 +67,7 @@ E(t, a, b, n, m) == [t |-> t, a |-> a, b |-> b, n |-> n, m |-> m]
 Init == /\ http \in HTTP01
         /\ pc = "newOrder" /\ k = 0 /\ j = 1 /\ nextTyp = 1
         /\ ordSt = <<>> /\ azSt = <<>> /\ offer = [i \in 1..NAuthz |-> NoOffer]
-        /\ tokens = {} /\ cleanups = {} /\ tried = {} /\ badAccept = FALSE /\ refused = {}
+        /\ tokens = {} /\ cleanups = {} /\ tried = {} /\ badAccept = FALSE /\ badTarget = FALSE /\ refused = {}
         /\ finalized = {} /\ readySeen = {} /\ woFails = 0
         /\ result = "" /\ bgDone = FALSE
         /\ ev = E("init", "", "", 0, 0)
@@ -91,7 +92,7 @@ NewOrder(ost, sts, ofs) ==
           /\ CASE ost = "ready"   -> /\ pc' = "bg" /\ readySeen' = readySeen \cup {k + 1} /\ UNCHANGED result
                [] ost = "pending" -> /\ pc' = "getAuthz" /\ UNCHANGED <<readySeen, result>>
                [] OTHER           -> /\ pc' = "bg" /\ result' = "error" /\ UNCHANGED readySeen   \* "invalid new order status"
-  /\ UNCHANGED <<http, nextTyp, tokens, cleanups, tried, badAccept, refused, finalized, woFails, bgDone>>
+  /\ UNCHANGED <<http, nextTyp, tokens, cleanups, tried, badAccept, badTarget, refused, finalized, woFails, bgDone>>
 
 \* first supported type from position nextTyp on that the authorization offers (0 = none)
 Pick(of, from) == LET T == Types(http)
@@ -120,7 +121,7 @@ GetAuthz(err) ==
                     /\ cleanups' = cleanups \cup {Types(http)[p]}
                     /\ pc' = "accept"
                     /\ ev' = E("getAuthz", "pending", Types(http)[p], k, j) /\ UNCHANGED <<j, result>>
-  /\ UNCHANGED <<http, k, ordSt, azSt, offer, tried, badAccept, refused, finalized, readySeen, woFails, bgDone>>
+  /\ UNCHANGED <<http, k, ordSt, azSt, offer, tried, badAccept, badTarget, refused, finalized, readySeen, woFails, bgDone>>
 
 CurType == Types(http)[nextTyp - 1]
 
@@ -128,7 +129,8 @@ CurType == Types(http)[nextTyp - 1]
 Accept(how) ==
   /\ pc = "accept"
   /\ how = "err" => "accept" \in Faults
-  /\ badAccept' = (badAccept \/ CurType \notin tokens \/ CurType \notin offer[j] \/ CurType \in tried \/ azSt[k][j] # "pending")
+  /\ badAccept' = (badAccept \/ CurType \notin tokens \/ CurType \notin offer[j])
+  /\ badTarget' = (badTarget \/ CurType \in tried \/ azSt[k][j] # "pending")
   /\ tried' = tried \cup {CurType}
   /\ ev' = E("accept", how, CurType, k, j)
   /\ IF how = "err"
@@ -144,7 +146,7 @@ WaitAuthz ==
   /\ ev' = E("waitAuthz", azSt[k][j], "", k, j)
   /\ IF azSt[k][j] = "valid" THEN pc' = "getAuthz" /\ j' = j + 1
      ELSE pc' = "newOrder" /\ UNCHANGED j
-  /\ UNCHANGED <<http, k, nextTyp, ordSt, azSt, offer, tokens, cleanups, tried, badAccept, refused, finalized, readySeen, woFails, result, bgDone>>
+  /\ UNCHANGED <<http, k, nextTyp, ordSt, azSt, offer, tokens, cleanups, tried, badAccept, badTarget, refused, finalized, readySeen, woFails, result, bgDone>>
 
 \* client.WaitOrder once every authorization has been dealt with: the CA reports the order ready or invalid
 WaitOrder(st) ==
@@ -155,7 +157,7 @@ WaitOrder(st) ==
   /\ IF st = "ready"
      THEN pc' = "bg" /\ readySeen' = readySeen \cup {k} /\ UNCHANGED woFails
      ELSE pc' = "newOrder" /\ woFails' = woFails + 1 /\ UNCHANGED readySeen
-  /\ UNCHANGED <<http, k, j, nextTyp, azSt, offer, tokens, cleanups, tried, badAccept, refused, finalized, result, bgDone>>
+  /\ UNCHANGED <<http, k, j, nextTyp, azSt, offer, tokens, cleanups, tried, badAccept, badTarget, refused, finalized, result, bgDone>>
 
 Pending == {p \in (1..Len(azSt)) \X (1..NAuthz) : azSt[p[1]][p[2]] = "pending"}
 
@@ -171,7 +173,7 @@ Background(ref) ==
   /\ refused' = ref
   /\ bgDone' = TRUE
   /\ ev' = E("background", "", "", Len(azSt), Cardinality(ref))
-  /\ UNCHANGED <<http, pc, k, j, nextTyp, ordSt, offer, cleanups, tried, badAccept, finalized, readySeen, woFails, result>>
+  /\ UNCHANGED <<http, pc, k, j, nextTyp, ordSt, offer, cleanups, tried, badAccept, badTarget, finalized, readySeen, woFails, result>>
 
 \* authorizedCert: CreateOrderCert for the order verifyRFC returned
 Finalize(fin) ==
@@ -181,11 +183,11 @@ Finalize(fin) ==
   /\ ordSt' = [ordSt EXCEPT ![k] = fin]
   /\ pc' = "end"
   /\ ev' = E("finalize", fin, "", k, 0)
-  /\ UNCHANGED <<http, k, j, nextTyp, azSt, offer, tokens, cleanups, tried, badAccept, refused, readySeen, woFails, bgDone>>
+  /\ UNCHANGED <<http, k, j, nextTyp, azSt, offer, tokens, cleanups, tried, badAccept, badTarget, refused, readySeen, woFails, bgDone>>
 
 FailStep == /\ pc = "bg" /\ bgDone /\ result = "error"
             /\ pc' = "end" /\ ev' = E("fail", "", "", k, 0)
-            /\ UNCHANGED <<http, k, j, nextTyp, ordSt, azSt, offer, tokens, cleanups, tried, badAccept, refused, finalized, readySeen, woFails, result, bgDone>>
+            /\ UNCHANGED <<http, k, j, nextTyp, ordSt, azSt, offer, tokens, cleanups, tried, badAccept, badTarget, refused, finalized, readySeen, woFails, result, bgDone>>
 
 Next == \/ \E ost \in {"pending", "ready", "invalid", "err"} :
            \E sts \in [1..NAuthz -> {"pending", "valid"}] : \E ofs \in [1..NAuthz -> OfferSets \cup {NoOffer}] : NewOrder(ost, sts, ofs)
@@ -210,7 +212,7 @@ F4_NoPendingLeft == (pc = "end") => Pending \subseteq refused
 F5_FinalizeOnlyReady == /\ finalized \subseteq readySeen
                         /\ result = "cert" => finalized # {}
                         /\ (pc = "end" /\ finalized = {}) => result = "error"
-F6_OnlyPendingAccepted == ~badAccept
+F6_OnlyPendingAccepted == ~badTarget
 Terminates == <>(pc = "end")
 Done == pc = "end"
 =============================================================================
